@@ -79,6 +79,12 @@ class Session:
         self.results.append(r)
         return r
 
+    def native_oracle(self, ctx, key, args, expect, pre=None):
+        """register a native *reference check* (the driver runs the real function on a scenario built from `args` and compares it
+        with an independent definition, printing 1 per agreeing aspect): during replay a result different from `expect`
+        reproduces the violation natively"""
+        self._natives.setdefault(id(ctx), []).append({"key": key, "args": list(args), "outs": list(expect), "panic": None, "pre": pre, "oracle": True})
+
     def native(self, ctx, key, args, outs, panic=None, pre=None):
         """register the native counterpart of an encoded call: vnative `key` applied to `args` (Int terms) must give
         `outs` (Int/Bool terms; Bool compared as 0/1) or panic exactly when `panic` holds. Used for replay of
@@ -89,7 +95,7 @@ class Session:
         """assert side /\ assumptions /\ not goal ; expect unsat"""
         asserts = list(ctx.side) + list(assumptions) + [T.not_(goal)]
         qr = smt.check(name, ctx.decls, ctx.uf_decls, asserts, timeout_s or self.timeout_s)
-        ex = {"natives": list(self._natives.get(id(ctx), [])), "goal_term": goal, "assumptions_terms": list(assumptions),
+        ex = {"natives": self._natives.setdefault(id(ctx), []), "goal_term": goal, "assumptions_terms": list(assumptions),
               "side_terms": list(ctx.side)}
         if extra:
             ex.update(extra)
